@@ -32,7 +32,7 @@ m = {
     "engines": [
         {"name": "enumerator", "path": "/verif/check.py", "serves_properties": [p for p in sorted(CHECKS) if CHECKS[p].get("engine", "enumerator") == "enumerator"],
          "kind_free_text": "exhaustive enumeration of bounded input alphabets on the compiled library against an independent dense-matrix reference (harness/ref.hpp)"},
-        {"name": "history-explorer", "path": "/verif/harness/hist.hpp", "serves_properties": [p for p in sorted(CHECKS) if CHECKS[p].get("engine") == "history-explorer"],
+        {"name": "history-explorer", "path": "/verif/harness/hist.cpp", "serves_properties": [p for p in sorted(CHECKS) if CHECKS[p].get("engine") == "history-explorer"],
          "kind_free_text": "explicit-state breadth-first search over operation histories replayed on the real objects, canonical-key deduplication, arena allocator with ledger"},
         {"name": "schedule-explorer", "path": "/verif/harness/sched.hpp", "serves_properties": [p for p in sorted(CHECKS) if CHECKS[p].get("engine") == "schedule-explorer"],
          "kind_free_text": "stateless preemption-bounded DFS over thread interleavings with state hashing; scheduling points placed by compiler instrumentation"},
